@@ -256,9 +256,11 @@ static unsigned int ares_qcache_calc_minttl(ares_dns_record_t *dnsrec)
       ares_dns_rec_type_t type = ares_dns_rr_get_type(rr);
       unsigned int        ttl  = ares_dns_rr_get_ttl(rr);
 
-      /* TTL is meaningless on these record types */
-      if (type == ARES_REC_TYPE_OPT || type == ARES_REC_TYPE_SOA ||
-          type == ARES_REC_TYPE_SIG) {
+      /* TTL is meaningless on these record types.  An SOA outside of the
+       * answer section only describes negative caching, see
+       * ares_qcache_soa_minimum() */
+      if (type == ARES_REC_TYPE_OPT || type == ARES_REC_TYPE_SIG ||
+          (type == ARES_REC_TYPE_SOA && sect != ARES_SECTION_ANSWER)) {
         continue;
       }
 
@@ -330,6 +332,12 @@ static ares_status_t ares_qcache_insert_int(ares_qcache_t           *qcache,
     ttl = ares_qcache_soa_minimum(qresp);
   } else {
     ttl = ares_qcache_calc_minttl(qresp);
+    /* Nothing in the response carries a usable TTL (NODATA: at most an SOA):
+     * RFC 2308 Section 5 says the SOA determines how long this may be cached,
+     * without one it must not be cached at all */
+    if (ttl == 0xFFFFFFFF) {
+      ttl = ares_qcache_soa_minimum(qresp);
+    }
   }
 
   if (ttl > qcache->max_ttl) {
